@@ -712,11 +712,11 @@ type singleTable struct {
 	ss           *dragonboat.VerifPendingSnapshot
 	notifyCommit bool
 	// the request the worker has taken from the channel
-	takenKey   uint64
-	haveTaken  bool
+	takenKey       uint64
+	haveTaken      bool
 	takenCommitted bool
-	inChannel  bool
-	seq        uint64
+	inChannel      bool
+	seq            uint64
 }
 
 func runConfigChange(t *tracker, src *choice.Source) int {
